@@ -201,7 +201,9 @@ def wakeMachine : Machine WakeD where
     match op, args with
     | "send", [v]     => if idle then some { d with s := Wake.apply s (.send t (nat v)) } else none
     | "sendwith", [v] => if idle then some { d with s := Wake.apply s (.sendWith t (nat v)) } else none
-    | "sendrsv", [v]  => if idle then some { d with s := Wake.apply s (.sendRsv t (nat v)) } else none
+    | "sendrsv", [v]  =>
+        -- the Multi ogre_arc channels publish a reserved slot through the ordinary fan-out (their own wake rule)
+        if idle then some { d with s := Wake.apply s (if s.rule == .m1 || s.rule == .m2 then .send t (nat v) else .sendRsv t (nat v)) } else none
     | "asyncmov", [v] => if idle then some { d with s := Wake.apply s (.asyncMov t (nat v)) } else none
     | "asynczc", [v]  => if idle then some { d with s := Wake.apply s (.asyncZc t (nat v)) } else none
     | "resume", []    => match s.thr t with
@@ -211,7 +213,7 @@ def wakeMachine : Machine WakeD where
                          | .zSusp _ => some { d with s := Wake.apply s (.resume t) }
                          | _ => none
     | "cancel", [j]   => if idle && nat j < s.k then some { d with s := Wake.apply s (.cancel t (nat j)) } else none
-    | "release", []   => if s.zc && s.held > 0 then some { d with s := Wake.apply s .release } else none
+    | "release", []   => if !s.zc then some d else if s.held > 0 then some { d with s := Wake.apply s .release } else none
     | "drop", [j]     =>
         let j := nat j
         if t == 100 + j && j < s.k && s.sloc j == .ended && !d.polling.contains j then some { s := Wake.apply s (.dropS j), polling := j :: d.polling } else none
@@ -367,6 +369,9 @@ def mkMachine (kv : List (String × String)) : Option AnyMachine :=
       let rule := match lookup kv "rule" with
         | some "atomic" => Mutiny.Wake.Rule.atomic
         | some "cb" => .cb
+        | some "mcb" => .cb
+        | some "m2" => .m2
+        | some "m1" => .m1
         | _ => .fs
       some { σ := _, m := wakeMachine, s := { s := Mutiny.Wake.init n mx k rule ((lookup kv "zc") == some "1"), polling := [] } }
   | some "handles" => some { σ := _, m := handlesMachine, s := Mutiny.Handles.init n }
